@@ -402,6 +402,20 @@ def build_matrix_builder(kind: str, container: Optional[str] = None) -> LayerBui
             b.examples[f"rq_cc{k}"] = [(bytes([0x31, k, 5]) + raw).hex()]
             b.examples[f"rs_cc{k}"] = [(bytes([0x71, k, 5]) + raw + b"\x09").hex()]
             k += 1
+        # length keys whose data object is signed or has an offset: the PDU can announce a negative length
+        lkd_signed = b.dop("lk_signed", b.slt("A_INT32", 8, "TWOC"))
+        lkd_offset = b.dop("lk_offset", b.slt("A_INT32", 8), compu=b.linear("A_INT32", "A_INT32", -16, 1))
+        for lkd, base in ((lkd_signed, "A_UINT32"), (lkd_signed, "A_BYTEFIELD"), (lkd_offset, "A_ASCIISTRING"),
+                          (lkd_offset, "A_UINT32")):
+            lk = b.length_key(f"len{k}", lkd)
+            d = b.dop(f"pl{k}", b.param_length(base, lk))
+            lk2 = b.length_key(f"rlen{k}", lkd)
+            d2 = b.dop(f"rpl{k}", b.param_length(base, lk2))
+            _svc2(b, k, f"pl{k}", [lk, b.value("v", d), b.value("post", u8)], [lk2, b.value("v", d2), b.value("post", u8)])
+            raw = [0, 8, 16, 0x18, 0x20, 0x80, 0xFF, 0xF8]
+            b.examples[f"rq_pl{k}"] = [(bytes([0x31, k, x]) + b"\x41\x42\x43\x09").hex() for x in raw]
+            b.examples[f"rs_pl{k}"] = [(bytes([0x71, k, x]) + b"\x41\x42\x43\x09").hex() for x in raw]
+            k += 1
     elif kind == "ambig":
         # services whose coding objects cannot be told apart by their constant parts: two positive responses of the
         # same shape, negative responses that differ only in (overlapping) NRC lists and in length
